@@ -90,7 +90,13 @@ class MetaMC(type):
         cls.__args__ = get_args(handler)
 
     def codegen(cls):
-        return cls._handler.codegen()
+        codegen = getattr(cls._handler, "codegen", None)
+        if codegen is None:
+            # Handlers that only test the class (HasMethod, class_check, ...)
+            from .dependent import CodeGen
+
+            return CodeGen("isinstance({arg}, {this})", this=cls)
+        return codegen()
 
     def __type_order__(cls, other):
         return cls._handler.__type_order__(other)
